@@ -47,6 +47,7 @@ FUNCTIONS = ['band_init_stats', 'band_update_stats', 'band_choose_hello_time', '
              'mapping_reset_charge', 'mapping_on_charge', 'mapping_check_charge_timeout', 'mapping_check_inactive_timeout',
              'mapping_reset_inactive_timeout', 'session_table_is_empty', 'session_table_all_complete',
              'session_table_update_complete_status', 'session_table_clear',
+             'mac_equal', 'mac_copy', 'session_table_find', 'session_table_add', 'session_table_remove',
              'switch_state_mapping', 'switch_state_session', 'switch_state_enumeration']
 
 
@@ -145,7 +146,14 @@ class Fn:
         self.renames = {}       # decl id -> lean field
         self.calls = set()
         self.dead = set()
+        self.arr_params = {}
+        self.const_params = set()
+        self.optptr = {}        # local pointer that may be NULL (result of a pointer-returning translated function): name -> place builder
+        self.ret_base = None    # for a function returning `T *`: the place (below a pointer parameter) every non-NULL result points into
         self.aux = []
+        self.emitted = None
+        self.ret_elem = None
+        self.last_call_places = {}
         self.nloops = 0
         self.recursive = False
         rk = kind_of(decl['type']['qualType'].split('(')[0].strip())
@@ -169,7 +177,7 @@ class Fn:
             nm = ref['name']
             if nm in self.alias:
                 return list(self.alias[nm])
-            if nm in self.ptr_params:
+            if nm in self.ptr_params or nm in self.arr_params:
                 return [('f', lname(nm))]
             if nm in self.loopvars:
                 raise Unsupported('%s: loop variable %s used as an lvalue' % (self.name, nm))
@@ -186,6 +194,8 @@ class Fn:
                 arr = arr['inner'][0]
             base = self.place(arr)
             ak = kind_of(arr['type'])
+            if ak[0] == 'ptr' and arr.get('kind') == 'DeclRefExpr' and arr['referencedDecl']['name'] in self.arr_params:
+                ak = ('arr', self.arr_params[arr['referencedDecl']['name']], None)
             if ak[0] != 'arr':
                 raise Unsupported('%s: subscript of a non-array (%s)' % (self.name, qual(arr['type'])))
             idx = self.nat(n['inner'][1])
@@ -220,7 +230,12 @@ class Fn:
     # ---------------------------------------------------------------- expressions
     def pure(self, n):
         for x in walk(n):
-            if x.get('kind') in ('CallExpr', 'CompoundAssignOperator') or \
+            if x.get('kind') == 'CallExpr':
+                cn = self._callee(x)
+                if cn in CLOCKS or (cn in self.tr.wanted and cn != self.name and self.tr.fn(cn).const_only()):
+                    continue
+                return False
+            if x.get('kind') in ('CompoundAssignOperator',) or \
                (x.get('kind') == 'BinaryOperator' and x.get('opcode') == '=') or \
                (x.get('kind') == 'UnaryOperator' and x.get('opcode') in ('++', '--')):
                 return False
@@ -245,6 +260,9 @@ class Fn:
             if ck in ('NullToPointer', 'BitCast', 'ArrayToPointerDecay', 'FunctionToPointerDecay'):
                 return ('()', ('ptr', ''))
             if ck == 'PointerToBoolean':
+                m0 = strip(sub)
+                if m0.get('kind') == 'DeclRefExpr' and m0['referencedDecl']['name'] in self.optptr:
+                    return ('s.%s_idx.isSome' % lname(m0['referencedDecl']['name']), ('b', 1))
                 self.nonnull(sub)
                 return ('true', ('b', 1))
             if ck == 'IntegralToBoolean':
@@ -357,6 +375,22 @@ class Fn:
             nm = callee.get('referencedDecl', {}).get('name')
             if nm in CLOCKS:
                 return (CLOCKS[nm], ('u', 64))
+            if nm in self.tr.wanted and nm != self.name and self.tr.fn(nm).const_only():
+                g = self.tr.fn(nm)
+                self.calls.add(nm)
+                terms = []
+                for p, a in zip(g.params, n['inner'][1:]):
+                    pk = kind_of(p['type'])
+                    if pk[0] == 'ptr':
+                        if p['name'] in g.ignored_ptr_params:
+                            continue
+                        terms.append(self.read(self.place(self.deref_arg(a))))
+                    else:
+                        t, kd = self.expr(a)
+                        terms.append(t)
+                if g.ret_kind[0] not in ('u', 's', 'b'):
+                    raise Unsupported('%s: value of %s used in an expression' % (self.name, nm))
+                return ('(%s env %s).ret' % (nm, ' '.join('(%s)' % t for t in terms)), g.ret_kind)
             raise Unsupported('%s: call of %s inside an expression' % (self.name, nm))
         if k == 'UnaryExprOrTypeTraitExpr':
             raise Unsupported('%s: sizeof' % self.name)
@@ -434,6 +468,11 @@ class Fn:
         if kd[0] == 'b':
             return t
         if kd[0] == 'ptr':
+            m0 = strip(n)
+            while m0.get('kind') == 'ImplicitCastExpr':
+                m0 = strip(m0['inner'][0])
+            if m0.get('kind') == 'DeclRefExpr' and m0['referencedDecl']['name'] in self.optptr:
+                return 's.%s_idx.isSome' % lname(m0['referencedDecl']['name'])
             self.nonnull(n)
             return 'true'
         return '(%s != 0)' % t
@@ -457,6 +496,8 @@ class Fn:
         while m.get('kind') in ('ImplicitCastExpr',):
             m = m['inner'][0]
         if m.get('kind') == 'DeclRefExpr' and m['referencedDecl']['name'] in self.ptr_params:
+            return
+        if m.get('kind') == 'DeclRefExpr' and m['referencedDecl']['name'] in self.arr_params:
             return
         if m.get('kind') == 'DeclRefExpr' and m['referencedDecl']['name'] in self.ignored_ptr_params:
             return
@@ -552,6 +593,8 @@ class Fn:
             self.calls.add(nm)
             terms = []
             backs = []
+            self.last_call_places = {}
+            self.last_callee = g
             for p, a in zip(g.params, args):
                 pk = kind_of(p['type'])
                 if pk[0] == 'ptr':
@@ -559,7 +602,9 @@ class Fn:
                         continue
                     pl = self.place(self.deref_arg(a))
                     terms.append(self.read(pl))
-                    backs.append((pl, lname(p['name'])))
+                    self.last_call_places[p['name']] = pl
+                    if p['name'] not in g.const_params:
+                        backs.append((pl, lname(p['name'])))
                 else:
                     t, kd = self.expr(a)
                     if kd[0] != pk[0]:
@@ -644,6 +689,20 @@ class Fn:
                                 snap.append(a)
                         self.alias[nm] = snap
                         continue
+                    if m.get('kind') == 'CallExpr' and self._callee(m) in self.tr.wanted and self._callee(m) != self.name:
+                        g = self.tr.fn(self._callee(m))
+                        g.ensure_emitted()
+                        if g.ret_base is None:
+                            raise Unsupported('%s: %s returns a pointer the translator cannot place' % (self.name, g.name))
+                        lines, _, _ = self.call_stmt(m, ind)
+                        out += lines
+                        f = '%s_idx' % lname(nm)
+                        self.add_field(f, 'Option Nat', 'none')
+                        out.append(pad + 'let s := { s with %s := r.ret_idx }' % f)
+                        base = self.last_call_places[g.ret_base[0]] + [('f', x) for x in g.ret_base[1]]
+                        self.alias[nm] = base + [('i', '(s.%s.getD 0)' % f, g.ret_elem)]
+                        self.optptr[nm] = (g.ret_base, base)
+                        continue
                     raise Unsupported('%s: pointer local %s initialised by %s' % (self.name, nm, m.get('kind')))
                 if kd[0] not in ('u', 's', 'b'):
                     raise Unsupported('%s: local %s of type %s' % (self.name, nm, qual(v['type'])))
@@ -720,8 +779,11 @@ class Fn:
                         while cal.get('kind') in ('ImplicitCastExpr', 'ParenExpr'):
                             cal = cal['inner'][0]
                         cn = cal.get('referencedDecl', {}).get('name', '')
-                        if not (cn in CLOCKS or cn.startswith('lltd_port_log')):
-                            raise Unsupported('%s: call of %s inside a loop body' % (self.name, cn))
+                        if not (cn in CLOCKS or cn.startswith('lltd_port_log') or
+                                (cn in self.tr.wanted and cn != self.name and self.tr.fn(cn).const_only())):
+                            # a callee that writes through a pointer could change what the bound reads: allowed only when the bound is a literal
+                            if strip(bound).get('kind') != 'IntegerLiteral':
+                                raise Unsupported('%s: call of %s inside a loop body with a non-constant bound' % (self.name, cn))
             if any(x.get('kind') == 'ContinueStmt' for x in walk(body)):
                 raise Unsupported('%s: continue' % self.name)
             hi = self.nat(bound)
@@ -746,6 +808,34 @@ class Fn:
                     if kd[0] != self.ret_kind[0]:
                         raise Unsupported('%s: return kind mismatch' % self.name)
                     return pre + [pad + 'let s := { s with ret := %s, done := true }' % t]
+                if self.ret_kind[0] == 'ptr':
+                    m = n['inner'][0]
+                    while m.get('kind') in ('ImplicitCastExpr', 'ParenExpr', 'CStyleCastExpr'):
+                        m = m['inner'][0]
+                    if m.get('kind') == 'CallExpr':
+                        # `return f(p, ...)` with f handing its pointer argument back (the automata): the call has been hoisted
+                        return pre + [pad + 'let s := { s with done := true }']
+                    if m.get('kind') == 'IntegerLiteral' and int(m['value']) == 0:
+                        self.add_field('ret_idx', 'Option Nat', 'none')
+                        return pre + [pad + 'let s := { s with ret_idx := none, done := true }']
+                    if m.get('kind') == 'DeclRefExpr':
+                        rn = m['referencedDecl']['name']
+                        if rn in self.optptr:
+                            gb, base = self.optptr[rn]
+                            self.set_ret_base(base)
+                            self.add_field('ret_idx', 'Option Nat', 'none')
+                            return pre + [pad + 'let s := { s with ret_idx := s.%s_idx, done := true }' % lname(rn)]
+                        if rn in self.alias:
+                            pl = self.alias[rn]
+                            if pl[-1][0] != 'i':
+                                raise Unsupported('%s: returned pointer is not an array element' % self.name)
+                            self.set_ret_base(pl[:-1])
+                            self.ret_elem = pl[-1][2]
+                            self.add_field('ret_idx', 'Option Nat', 'none')
+                            return pre + [pad + 'let s := { s with ret_idx := some %s, done := true }' % pl[-1][1]]
+                        if rn in self.ptr_params:
+                            return pre + [pad + 'let s := { s with done := true }']
+                    raise Unsupported('%s: returned pointer of kind %s' % (self.name, m.get('kind')))
                 return pre + [pad + 'let s := { s with done := true }']
             return [pad + 'let s := { s with done := true }']
         if k == 'BreakStmt':
@@ -801,6 +891,32 @@ class Fn:
         raise Unsupported('%s: statement of kind %s' % (self.name, m['kind']))
 
     # ---------------------------------------------------------------- whole function
+    def set_ret_base(self, place):
+        if not place or place[0][0] != 'f' or any(a[0] != 'f' for a in place):
+            raise Unsupported('%s: returned pointer does not point below a pointer parameter' % self.name)
+        pname = next((c for c in self.ptr_params if lname(c) == place[0][1]), None)
+        if pname is None:
+            raise Unsupported('%s: returned pointer does not point below a pointer parameter' % self.name)
+        rb = (pname, tuple(a[1] for a in place[1:]))
+        if self.ret_base is not None and self.ret_base != rb:
+            raise Unsupported('%s: returns pointers into different objects' % self.name)
+        self.ret_base = rb
+
+    def ensure_emitted(self):
+        if self.emitted is None:
+            self.emitted = self.emit()
+        return self.emitted
+
+    def const_only(self):
+        """every pointer parameter points to const data: a call cannot change anything the caller sees"""
+        for p in self.params:
+            kd = kind_of(p['type'])
+            if kd[0] == 'ptr' and p['name'] not in self.ignored_ptr_params and p['name'] not in self.const_params:
+                return False
+        return not any(x.get('kind') == 'CallExpr' and self._callee(x) not in CLOCKS and not str(self._callee(x)).startswith('lltd_port_log')
+                       and not (self._callee(x) in self.tr.wanted and self._callee(x) != self.name and self.tr.fn(self._callee(x)).const_only())
+                       for x in walk(self.body))
+
     def is_recursive(self):
         return any(x.get('kind') == 'CallExpr' and self._callee(x) == self.name for x in walk(self.body))
 
@@ -812,14 +928,25 @@ class Fn:
 
     def setup(self):
         self.ignored_ptr_params = set()
+        self.arr_params = {}
+        self.const_params = set()
         for p in self.params:
             kd = kind_of(p['type'])
             nm = p['name']
             if kd[0] == 'ptr':
                 pointee = re.sub(r'^struct ', '', kd[1])
+                pk = kind_of(re.sub(r'\bconst\b', '', kd[1]).strip()) if kd[1] else ('void',)
                 if pointee in self.tr.structs:
                     self.ptr_params[nm] = pointee
                     self.add_field(lname(nm), lname(pointee), None)
+                    if 'const' in p['type']['qualType'].split('*')[0]:
+                        self.const_params.add(nm)
+                elif pk[0] == 'u' and pk[1] == 8:
+                    # `uint8_t *` / `const uint8_t *`: an array of bytes passed by reference - by VALUE here, written back by the caller
+                    self.arr_params[nm] = pk
+                    self.add_field(lname(nm), 'List Nat', None)
+                    if 'const' in p['type']['qualType'].split('*')[0]:
+                        self.const_params.add(nm)
                 else:
                     self.ignored_ptr_params.add(nm)      # char *debug and the like: may only be NULL-tested or logged
             elif kd[0] in ('u', 's', 'b'):
@@ -910,13 +1037,13 @@ class Translator:
         return out
 
     def run(self):
-        fns = [Fn(self, self.fns[n]) for n in self.wanted if n in self.fns]
         missing = [n for n in self.wanted if n not in self.fns]
         if missing:
             raise Unsupported('functions not found in lltdAutomata.c: ' + ', '.join(missing))
+        fns = [self.fn(n) for n in self.wanted]
         bodies = {}
         for f in fns:
-            bodies[f.name] = f.emit()
+            bodies[f.name] = f.ensure_emitted()
         # order: callees first
         order = []
         def visit(nm, seen):
